@@ -1064,6 +1064,10 @@ class Interp:
         return self.getattr(obj, self.mangle(e.attr, env), e.lineno)
 
     def getattr(self, obj, name, lineno=None):
+        if isinstance(obj, tuple) and len(obj) == 2 and obj[0] == "np" and name == "newaxis":
+            return None
+        if isinstance(obj, types.ModuleType) and obj is _np and name == "newaxis":
+            return None
         if isinstance(obj, SRec):
             if obj.has(name):
                 return obj.get(name)
@@ -1113,6 +1117,10 @@ class Interp:
                 return (obj.rows, obj.cols)
             if name == "ndim":
                 return 2
+            if name == "data":
+                return obj
+            if name == "encoding":
+                return obj.enc
             return BoundMethod(obj, ("arr2", name))
         if isinstance(obj, SFile):
             return BoundMethod(obj, ("file", name))
